@@ -1,0 +1,113 @@
+//go:build verif
+
+package p2p
+
+import (
+	"io"
+	"time"
+
+	"github.com/MixinNetwork/mixin/common"
+	"github.com/MixinNetwork/mixin/crypto"
+)
+
+// Verification hooks for property C31 (every built message fits the transport limit).
+// Thin exported wrappers around unexported builders and the stream of a QuicClient;
+// compiled only with -tags verif.
+
+func VerifBuildTransactionsMessage(txs []*common.VersionedTransaction, typ byte) []byte {
+	return buildTransactionsMessage(txs, typ)
+}
+
+func VerifBuildTransactionChallengeMessage(snap crypto.Hash, cosi *crypto.CosiSignature, txs []*common.VersionedTransaction) []byte {
+	return buildBatchTransactionChallengeMessage(snap, cosi, txs)
+}
+
+func VerifBuildFullChallengeMessage(s *common.Snapshot, commitment, challenge *crypto.Key, txs []*common.VersionedTransaction) []byte {
+	return buildBatchFullChallengeMessage(s, commitment, challenge, txs)
+}
+
+func VerifBuildAnnouncementMessage(s *common.Snapshot, R, spend crypto.Key) []byte {
+	return buildBatchSnapshotAnnouncementMessage(s, R, spend)
+}
+
+func VerifBuildCommitmentMessage(handle SyncHandle, snap crypto.Hash, R crypto.Key, wantTxs []crypto.Hash) []byte {
+	return buildBatchSnapshotCommitmentMessage(handle, snap, R, wantTxs)
+}
+
+func VerifBuildResponseMessage(snap crypto.Hash, si *[32]byte) []byte {
+	return buildSnapshotResponseMessage(snap, si)
+}
+
+func VerifBuildFinalizationMessage(s *common.Snapshot) []byte {
+	return buildBatchSnapshotFinalizationMessage(s)
+}
+
+func (me *Peer) VerifBuildRelayMessage(peerId crypto.Hash, msg []byte) []byte {
+	return me.buildRelayMessage(peerId, msg)
+}
+
+func VerifParseNetworkMessage(version uint8, data []byte) (*PeerMessage, error) {
+	return parseNetworkMessage(version, data)
+}
+
+// VerifAddNeighbor registers an unconnected consumer peer: messages offered to it stay in
+// its rings until VerifDrain reads them.
+func (me *Peer) VerifAddNeighbor(id crypto.Hash) *Peer {
+	p := NewPeer(nil, id, "", false)
+	me.consumers.Put(id, p)
+	return p
+}
+
+// VerifDrain returns the data of every message waiting in the rings of p (high first).
+func (p *Peer) VerifDrain() [][]byte {
+	var out [][]byte
+	for {
+		select {
+		case m := <-p.highRing:
+			out = append(out, m.data)
+		case m := <-p.normalRing:
+			out = append(out, m.data)
+		default:
+			return out
+		}
+	}
+}
+
+func (c *QuicClient) VerifReceiveWithLimit(maxSize uint32) (*TransportMessage, error) {
+	return c.receiveWithLimit(maxSize)
+}
+
+// VerifRawWrite writes bytes to the stream as they are; with fin the sending side of the
+// stream is closed afterwards, so the reader sees EOF behind them.
+func (c *QuicClient) VerifRawWrite(b []byte, fin bool) error {
+	err := c.stream.SetWriteDeadline(time.Now().Add(WriteDeadline))
+	if err != nil {
+		return err
+	}
+	if len(b) > 0 {
+		_, err = c.stream.Write(b)
+		if err != nil {
+			return err
+		}
+	}
+	if fin {
+		return c.stream.Close()
+	}
+	return nil
+}
+
+// VerifRawRead reads exactly n bytes from the stream.
+func (c *QuicClient) VerifRawRead(n int) ([]byte, error) {
+	err := c.stream.SetReadDeadline(time.Now().Add(ReadDeadline))
+	if err != nil {
+		return nil, err
+	}
+	b := make([]byte, n)
+	_, err = io.ReadFull(c.stream, b)
+	return b, err
+}
+
+// VerifListenAddr is the address the relayer's listener is bound to.
+func (t *QuicRelayer) VerifListenAddr() string {
+	return t.listener.Addr().String()
+}
